@@ -495,10 +495,14 @@ fn exec(ctx: &Ctx, st: &mut State, toks: &[&str]) -> String {
             let names = parse_names(vs);
             let mut arrays: Vec<Array> = names.iter().map(|n| st.unbind(n)).collect();
             GradientDescent::new(ctx.parse(lr)).update(arrays.iter_mut().collect());
+            let parts: Vec<String> = arrays
+                .iter()
+                .map(|p| format!("{} g={}", ctx.render_a(p), ctx.render_oa(&p.gradient())))
+                .collect();
             for (n, a) in names.iter().zip(arrays) {
                 st.bind(n, a);
             }
-            "ok".into()
+            format!("params {}", parts.join(" ; "))
         }
         ["dense", l, i, o, act, w, b] => {
             let mut vals = ctx.parse_list(w);
@@ -562,7 +566,14 @@ fn exec(ctx: &Ctx, st: &mut State, toks: &[&str]) -> String {
         }
         ["update", m] => {
             st.models.get_mut(*m).expect("unknown model").model.update();
-            "ok".into()
+            let names = st.models.get(*m).unwrap().layers.clone();
+            let mut parts = vec![];
+            for n in names {
+                for p in layer_params(st.layers.get(&n).expect("unknown layer").ptr) {
+                    parts.push(format!("{} g={}", ctx.render_a(&p), ctx.render_oa(&p.gradient())));
+                }
+            }
+            format!("params {}", parts.join(" ; "))
         }
         ["params", m] => {
             let names: Vec<String> = match st.models.get(*m) {
